@@ -481,7 +481,7 @@ func stringContainsCTLByte(s []byte) bool {
 func splitHostURI(host, uri []byte) ([]byte, []byte, []byte) {
 	scheme, path := getScheme(uri)
 
-	if scheme == nil {
+	if scheme == nil || !bytes.HasPrefix(path, bytestr.StrSlashSlash) {
 		return bytestr.StrHTTP, host, uri
 	}
 
